@@ -31,6 +31,9 @@ def make(shape: Dict[str, Any]) -> Any:
     incoming = shape.get('incoming')  # None | 'conflict' | 'unrelated' | 'conflict-lowercase-alias'
     custom_ttl = shape.get('custom_ttl', False)
     offset_max = shape.get('offset_max', 1000)
+    TYPE_ = shape.get('type', T1)  # a type that is only valid in non-strict mode goes with strict=False
+    NAME_ = f'Alpha.{TYPE_}'
+    strict = shape.get('strict', True)
 
     def fn(ctx: Any) -> None:
         t0 = ctx.int('t0', 5000, 2**40)
@@ -43,27 +46,27 @@ def make(shape: Dict[str, Any]) -> Any:
             v4 = [V4A, V4B]
         host_ttl = ctx.int('host_ttl', 1, 2**31 - 1)
         other_ttl = ctx.int('other_ttl', 1, 2**31 - 1)
-        svc = Svc('S', T1, NAME, 'alpha.local.', 80, v4, v6, host_ttl=host_ttl, other_ttl=other_ttl)
+        svc = Svc('S', TYPE_, NAME_, 'alpha.local.', 80, v4, v6, host_ttl=host_ttl, other_ttl=other_ttl)
         info = svc.info()
         reg_ttl: Optional[Any] = None
         if custom_ttl:
             reg_ttl = ctx.int('register_ttl', 1, 2**31 - 1)
             svc.host_ttl = svc.other_ttl = reg_ttl
         for n in taken:
-            zc.cache.async_add_records([Spec('PTR', T1, alias=n).make(4500, t0 - 10, False)])
+            zc.cache.async_add_records([Spec('PTR', TYPE_, alias=n).make(4500, t0 - 10, False)])
         for n in shape.get('expired_taken', []):
             # an expired, not yet purged pointer: it is no conflict by itself, and a fresh copy arriving later
             # refreshes it in place (no "new record" notification wakes the waiting registration)
-            zc.cache.async_add_records([Spec('PTR', T1, alias=n).make(1, t0 - 4000, False)])
-        task = loop.create_task(zc.async_register_service(info, reg_ttl, allow))
+            zc.cache.async_add_records([Spec('PTR', TYPE_, alias=n).make(1, t0 - 4000, False)])
+        task = loop.create_task(zc.async_register_service(info, reg_ttl, allow, False, strict))
         arrival: Optional[Any] = None
         effective_conflict = False
         if incoming is not None:
             arrival = t0 + ctx.int('arrival_offset', 0, offset_max)
             loop.advance_to(arrival)
             cttl = ctx.int('incoming_ttl', 0, 2**32 - 1)
-            alias = {'conflict': NAME, 'unrelated': 'Other._http._tcp.local.'}[incoming]
-            rec = Spec('PTR', T1, alias=alias).make(cttl, loop.now_ms, False)
+            alias = {'conflict': NAME_, 'unrelated': 'Other._http._tcp.local.'}[incoming]
+            rec = Spec('PTR', TYPE_, alias=alias).make(cttl, loop.now_ms, False)
             zc.record_manager.async_updates_from_response(mk_incoming(loop.now_ms, [rec]))
             effective_conflict = incoming == 'conflict' and cttl != 0
         loop.advance_by(3000)
@@ -77,11 +80,11 @@ def make(shape: Dict[str, Any]) -> Any:
             ctx.check(s.multicast, 'probe / announcement not sent to the mDNS group')
         # ---- which name must win
         names_taken = [n.lower() for n in taken]
-        final_name: Optional[str] = NAME
+        final_name: Optional[str] = NAME_
         must_fail = False
         detected = False
         undecided = False
-        if NAME.lower() in names_taken:
+        if NAME_.lower() in names_taken:
             detected = True
         elif effective_conflict:
             if arrival < t0 + 2 * CHECK:
@@ -97,16 +100,16 @@ def make(shape: Dict[str, Any]) -> Any:
                 final_name = None
             else:
                 k = 2
-                while f'Alpha-{k}.{T1}'.lower() in names_taken:
+                while f'Alpha-{k}.{TYPE_}'.lower() in names_taken:
                     k += 1
-                final_name = f'Alpha-{k}.{T1}'
-                restart = t0 if NAME.lower() in names_taken else arrival
+                final_name = f'Alpha-{k}.{TYPE_}'
+                restart = t0 if NAME_.lower() in names_taken else arrival
         # ---- outcome
         ctx.check(task.done(), 'async_register_service did not finish within 3 s')
         if must_fail:
             ctx.check(isinstance(task._exc, NonUniqueNameException), f'registration of a name in use did not fail with NonUniqueNameException ({task._exc!r})')
             ctx.check(not announces, 'a name in use was announced')
-            ctx.check(zc.registry.async_get_info_name(NAME.lower()) is None, 'a name in use was put into the registry')
+            ctx.check(zc.registry.async_get_info_name(NAME_.lower()) is None, 'a name in use was put into the registry')
             return
         ctx.check(task._exc is None, f'registration failed: {task._exc!r}')
         assert final_name is not None
@@ -116,7 +119,7 @@ def make(shape: Dict[str, Any]) -> Any:
         #      conflict is noticed: at its arrival when the waiting coroutine is woken (a new record), or at the next
         #      scheduled check when it is not (a cached copy refreshed in place)
         final_probes = [p for p in probes if p.out.authorities and p.out.authorities[0].alias == final_name]
-        if detected and allow and NAME.lower() not in names_taken:
+        if detected and allow and NAME_.lower() not in names_taken:
             next_check = t0 + CHECK if arrival < t0 + CHECK else t0 + 2 * CHECK
             if ctx.check(len(final_probes) >= 1, 'no probe for the new name'):
                 restart = final_probes[0].t
@@ -126,14 +129,14 @@ def make(shape: Dict[str, Any]) -> Any:
         for p in probes:
             o = p.out
             ctx.check(o.flags == QUERY_AA and not o.answers and not o.additionals, 'probe is not a bare query with an authority section')
-            ok_q = len(o.questions) == 1 and o.questions[0].name == T1 and o.questions[0].type == const._TYPE_PTR and o.questions[0].unicast and o.questions[0].class_ == const._CLASS_IN
+            ok_q = len(o.questions) == 1 and o.questions[0].name == TYPE_ and o.questions[0].type == const._TYPE_PTR and o.questions[0].unicast and o.questions[0].class_ == const._CLASS_IN
             ctx.check(ok_q, 'probe question is not a QU PTR question for the service type')
-            ok_a = len(o.authorities) == 1 and o.authorities[0].name == T1 and o.authorities[0].type == const._TYPE_PTR
+            ok_a = len(o.authorities) == 1 and o.authorities[0].name == TYPE_ and o.authorities[0].type == const._TYPE_PTR
             ctx.check(ok_a, 'probe authority section is not the proposed pointer')
             ctx.check(p.t <= restart + 2 * CHECK, 'probe sent after the registration completed')
         if detected:
             for p in probes:
-                if p.out.authorities and p.out.authorities[0].alias == NAME:
+                if p.out.authorities and p.out.authorities[0].alias == NAME_:
                     ctx.check(p.t <= restart, 'the conflicting name was probed for after the conflict was known')
         else:
             ctx.check(len(probes) == 3, f'{len(probes)} probes sent for an uncontested name')
@@ -161,7 +164,7 @@ def make(shape: Dict[str, Any]) -> Any:
                 ctx.check(r.ttl == ttl, f'announced {ident[:3]} does not carry the configured TTL')
                 ctx.check(r.unique == uniq, f'announced {ident[:3]}: cache-flush bit must be set on unique records only')
             for r in a.records():
-                ctx.check(getattr(r, 'alias', None) != NAME or final_name == NAME, 'the conflicting name was announced')
+                ctx.check(getattr(r, 'alias', None) != NAME_ or final_name == NAME_, 'the conflicting name was announced')
 
     return fn
 
@@ -182,6 +185,10 @@ QUICK = {
     'unrelated-during': sh(incoming='unrelated'),
     'conflict-during-refreshes-expired-entry': sh(incoming='conflict', expired_taken=[NAME]),
     'conflict-during-refreshes-expired-entry-rename': sh(incoming='conflict', expired_taken=[NAME], allow_name_change=True),
+    # a service type that is only acceptable in non-strict mode (underscore inside the label), registered with strict=False
+    'nonstrict-plain': sh(type='_ibisip_http._tcp.local.', strict=False),
+    'nonstrict-conflict-before-rename': sh(type='_ibisip_http._tcp.local.', strict=False, taken=['Alpha._ibisip_http._tcp.local.'], allow_name_change=True),
+    'nonstrict-conflict-during-rename': sh(type='_ibisip_http._tcp.local.', strict=False, incoming='conflict', allow_name_change=True),
 }
 THOROUGH = {
     'plain-two-v4': sh(addresses='two-v4'),
